@@ -77,10 +77,19 @@ class Ctx:
             raise AnalysisError(msg)
 
     def count_min(self, label: str, found: int, minimum: int):
+        """Fail closed on vacuity: the statements a clause is decided on were confirmed by hand on the pinned tree (`minimum` of them).
+        When fewer are found the construct that implements the clause is gone (deleted, or rewritten beyond what the rule
+        recognises): that is reported as a violation naming the construct, and the remaining obligations of this check, which
+        would be evaluated over nothing, are not."""
         self.counts[label] = found
         if found < minimum:
-            raise AnalysisError(f"instance count for {label!r} is {found}, below the confirmed minimum {minimum} "
-                                f"(the rule would pass vacuously)")
+            self.ob(0, "COUNT", f"the code this clause is decided on is present: {label} (at least {minimum} confirmed on the pinned tree)", False,
+                    construct=f"missing: {label}", detail=f"found {found}, expected at least {minimum}; without it the rule would pass vacuously")
+            raise MissingConstruct(label)
+
+
+class MissingConstruct(Exception):
+    """raised by Ctx.count_min after the failing obligation has been filed: stop evaluating, report what was found"""
 
 
 def load_known() -> Dict[str, Any]:
